@@ -9,7 +9,7 @@ ASSUMPTIONS = [
     "the tracked client is a real StdioClient (never started); its batch processor is inspected",
 ]
 STUBS = ["VClock/fake_fail_after", "ScriptedReadStream", "RecordingWriteStream", "uuid4 counter", "format stub"]
-OUTSIDE = ["supported lists longer than 3", "version strings longer than 1 (quick) / 2 (thorough) characters in the fully symbolic family - real dates are covered by the selector family"]
+OUTSIDE = ["supported lists longer than 3", "version strings longer than 1 (quick; also thorough for lists of 3) / 2 (thorough, lists of 1-2) characters in the fully symbolic family - real dates are covered by the selector family"]
 
 
 def obligations(tier, ctx):
@@ -23,8 +23,9 @@ def obligations(tier, ctx):
         sup = "[" + ", ".join(vs) + "]"
         for has_pref in (0, 1):
             for kind in (0,):
+                Ln = L if nsup < 3 else 1  # three supported versions + preferred + answer at length 2 does not finish in 400 s
                 params = [(v, "str") for v in vs] + ([("pref", "str")] if has_pref else []) + [("ans", "str")]
-                pre = [f"1 <= len({v}) <= {L}" for v in vs] + ([f"1 <= len(pref) <= {L}"] if has_pref else []) + [f"len(ans) <= {L}"]
+                pre = [f"1 <= len({v}) <= {Ln}" for v in vs] + ([f"1 <= len(pref) <= {Ln}"] if has_pref else []) + [f"len(ans) <= {Ln}"]
                 obs.append(Ob(name=f"sym_s{nsup}_p{has_pref}_ok", params=params, pre=pre,
                               call=f"H.nego({sup}, {'pref' if has_pref else 'None'}, 0, ans, 0, False, [1], 100)",
                               backend="F", timeout=400, family="symbolic versions / result answer"))
